@@ -11,7 +11,7 @@ EXTENDS Rounds
 P == {I(0), I(5), I(50)}
 Parts(x) == <<x, Zero, Zero, Zero, Zero>>
 MCStart == \E t \in {I(10), I(100)}, d \in {I(0), I(20)}, sh \in {0, 1, 2} :
-   Start([T |-> t, Tcfg |-> t, demF |-> [m \in 1..2 |-> IF m <= sh THEN d ELSE Zero], demB |-> <<Zero, Zero>>, shutF |-> sh, shutB |-> 0, shutFcfg |-> sh, shutBcfg |-> 0])
+   Start([T |-> t, Tcfg |-> t, demF |-> [m \in 1..2 |-> IF m <= sh THEN d ELSE Zero], demB |-> <<Zero, Zero>>, shutF |-> sh, shutB |-> 0, shutFcfg |-> sh, shutBcfg |-> 0, feedYear |-> d, feedYearCfg |-> d, bioYear |-> Zero, bioYearCfg |-> Zero])
 MCRound == \E r \in {1, 2, 3}, pf \in P, f1 \in {I(0), I(20)}, f2 \in {I(0), I(20)} :
    Round([r |-> r, pf |-> pf, statuses |-> <<1, 1, 1>>, feed |-> <<Parts(f1), Parts(f2)>>, bio |-> <<Parts(Zero), Parts(Zero)>>])
 MCSkip == Skip("rounds12") \/ Skip("round2")
